@@ -206,9 +206,10 @@ def C08(F, rep, tier, cx):
 
 def C09(F, rep, tier, cx):
     """S1 resynchronisation table implied by the signature constant; S2 unknown-type path advances by the declared size from the object
-    start and returns normally"""
+    start and returns normally; S3 decode starts at the object start; S4 the stream's seekg is relative, bounded only by the declared end"""
     RF.S1(F, rep)
     RF.S2S3(F, rep, cx.FL, {'S2', 'S3'})
+    RF.S4(F, rep)
 
 
 def C10(F, rep, tier, cx):
